@@ -23,69 +23,7 @@ def C01 : List (String × Nat × Nat) := [
   ("types/serialnumber.go:SerialNumber.MarshalUT0311L0x", 0x012b84393a089e54, 0x9a750b96d271bdb3),
   ("types/systemdate.go:SystemDate.MarshalUT0311L0x", 0x4deb28e0c020a5bb, 0xf00d62317714e3d4),
   ("types/systemtime.go:SystemTime.MarshalUT0311L0x", 0x2c24fc098b352f81, 0xd96ffd948142e178),
-  ("types/version.go:Version.MarshalUT0311L0x", 0x00c671172da563c1, 0xf30848f55aed87f9),
-  ("uhppote/activate_keypads.go:uhppote.ActivateKeypads#request", 0xdab7ff645ef49760, 0x8e30d935ff049720),
-  ("uhppote/activate_keypads.go:uhppote.ActivateKeypads#send", 0xa7fcbe268362cf1c, 0x40f1be46d30945fd),
-  ("uhppote/add_task.go:uhppote.AddTask#request", 0x199f99c880cfc626, 0xaaa238e54dde84fd),
-  ("uhppote/add_task.go:uhppote.AddTask#send", 0xb1d98850afbd9754, 0x82385d9cb5d48b8f),
-  ("uhppote/clear_task_list.go:uhppote.ClearTaskList#request", 0xeec9b2df8d3a80f6, 0x3948117d9e032155),
-  ("uhppote/clear_task_list.go:uhppote.ClearTaskList#send", 0x7b4a55aaa1f463ff, 0x756a0ee3fd5f1e29),
-  ("uhppote/clear_time_profiles.go:uhppote.ClearTimeProfiles#request", 0x74b7b619706dfae3, 0xa6e440119bbdaf54),
-  ("uhppote/clear_time_profiles.go:uhppote.ClearTimeProfiles#send", 0x3ac2779d6bd09918, 0xbc6c749f7b9b4be5),
-  ("uhppote/delete_card.go:uhppote.DeleteCard#request", 0xf48bc37aa3f39348, 0xc139c79cb35eec26),
-  ("uhppote/delete_card.go:uhppote.DeleteCard#send", 0x402e02606670f41d, 0x0c0740f13952d2be),
-  ("uhppote/delete_cards.go:uhppote.DeleteCards#request", 0xf4ea47194926641c, 0x26dc0d253328f3bd),
-  ("uhppote/delete_cards.go:uhppote.DeleteCards#send", 0x9e02a6977bbc7f8a, 0x6006ff33d0338ab6),
-  ("uhppote/get_card.go:uhppote.GetCardByID#request", 0xa097d76fa4c5f194, 0xb30cb68a2d974741),
-  ("uhppote/get_card.go:uhppote.GetCardByID#send", 0xda1fc09c81892230, 0x84119ba7eabe5941),
-  ("uhppote/get_card.go:uhppote.GetCardByIndex#request", 0xfe6a4f67abe4d3e2, 0x4984d1c3729b578f),
-  ("uhppote/get_card.go:uhppote.GetCardByIndex#send", 0x5bd4af7ba4279249, 0x45c61c67b4d6fb4a),
-  ("uhppote/get_cards.go:uhppote.GetCards#request", 0xfa156b9bccc5c902, 0x931fae9bacfbffde),
-  ("uhppote/get_cards.go:uhppote.GetCards#send", 0x723962ee76100032, 0xe8e5cbcf3c856288),
-  ("uhppote/get_device.go:uhppote.GetDevice#request", 0xa6ceb1896318bc8d, 0xf34362227d8aba6d),
-  ("uhppote/get_device.go:uhppote.GetDevice#send", 0x1fb2763ce331c337, 0x1ffe63d1985d488b),
-  ("uhppote/get_door_control_state.go:uhppote.GetDoorControlState#request", 0xf05db547b71b908f, 0xa94f50186bc657e0),
-  ("uhppote/get_door_control_state.go:uhppote.GetDoorControlState#send", 0x3150b88e58c99d58, 0x44cf79b50fb97537),
-  ("uhppote/get_event.go:uhppote.GetEvent#request", 0x2282954e2107d1ce, 0xf8b52ba0af547e3a),
-  ("uhppote/get_event.go:uhppote.GetEvent#send", 0xfbcb4785219bc7c4, 0x080849d89a2a0304),
-  ("uhppote/get_event_index.go:uhppote.GetEventIndex#request", 0xf53674c62f36d7d9, 0x393be1a4b19d0436),
-  ("uhppote/get_event_index.go:uhppote.GetEventIndex#send", 0xc3ef8926a11a559b, 0xc622c1c61540ce27),
-  ("uhppote/get_listener.go:uhppote.GetListener#request", 0x6fb5ca5fdb69e968, 0x6daca6af37a344e2),
-  ("uhppote/get_listener.go:uhppote.GetListener#send", 0xf159114bacb70bd1, 0xc3b6f66b742f787e),
-  ("uhppote/get_status.go:uhppote.GetStatus#request", 0x6d175464e6ef2085, 0x602e9c0197846adf),
-  ("uhppote/get_status.go:uhppote.GetStatus#send", 0x63bbb78505a842b0, 0xbb19d11e7779abf5),
-  ("uhppote/get_time.go:uhppote.GetTime#request", 0x402612393ea28e88, 0x92c15eda4db1f4e2),
-  ("uhppote/get_time.go:uhppote.GetTime#send", 0xb92a9c5e5625ff50, 0x9697cfeaa9bfebda),
-  ("uhppote/get_time_profile.go:uhppote.GetTimeProfile#request", 0x08a3f5ff29f80e1c, 0xdf7bec2fe3068baf),
-  ("uhppote/get_time_profile.go:uhppote.GetTimeProfile#send", 0x56ac82e5b527fbd8, 0x189ab3e1124d98c7),
-  ("uhppote/open.go:uhppote.OpenDoor#request", 0x24561f00066d6204, 0x34eaaa58125423c5),
-  ("uhppote/open.go:uhppote.OpenDoor#send", 0xd3a01db09909adf6, 0x53a8aab98bf81f95),
-  ("uhppote/put_card.go:uhppote.PutCard#request", 0x2ee13d27ccb0ee1c, 0x54c818db171d804d),
-  ("uhppote/put_card.go:uhppote.PutCard#send", 0xd197a6e48fd6e434, 0x08004d23ab25cd14),
-  ("uhppote/record_special_events.go:uhppote.RecordSpecialEvents#request", 0x546e1ecfcca337a8, 0x4bc9fe346913e47d),
-  ("uhppote/record_special_events.go:uhppote.RecordSpecialEvents#send", 0xe0d9cf225ce0e65f, 0xfa52f71fda1cde88),
-  ("uhppote/refresh_tasklist.go:uhppote.RefreshTaskList#request", 0x24ef9d9ba079f305, 0xbe0f103ff6473154),
-  ("uhppote/refresh_tasklist.go:uhppote.RefreshTaskList#send", 0x5a93b475dbddffb8, 0x0275fcf3372bc11b),
-  ("uhppote/restore_default_parameters.go:uhppote.RestoreDefaultParameters#request", 0x8aeb5e2f8e0106a2, 0x1b4de46124d9ebb8),
-  ("uhppote/restore_default_parameters.go:uhppote.RestoreDefaultParameters#send", 0x86df724193ce7440, 0x1f22cbd15945899a),
-  ("uhppote/set_address.go:uhppote.SetAddress#request", 0xadc1adab2d271b31, 0x71bf9ac82e615d0a),
-  ("uhppote/set_address.go:uhppote.SetAddress#send", 0xfe608384c4d08e32, 0x0c102b2c5ee7595d),
-  ("uhppote/set_door_control_state.go:uhppote.SetDoorControlState#request", 0x39966a1f288e480d, 0x3b05df686fdf2b3d),
-  ("uhppote/set_door_control_state.go:uhppote.SetDoorControlState#send", 0x07932fdf19448256, 0x15c735f264909ac3),
-  ("uhppote/set_door_passcodes.go:uhppote.SetDoorPasscodes#request", 0x029b7a5c65f2be55, 0xc1264fcef3880c8e),
-  ("uhppote/set_door_passcodes.go:uhppote.SetDoorPasscodes#send", 0xcc740250f6f236cb, 0x87caf1db1b8c0604),
-  ("uhppote/set_event_index.go:uhppote.SetEventIndex#request", 0x6eada6ecc0ad365b, 0xb1815e33e751de48),
-  ("uhppote/set_event_index.go:uhppote.SetEventIndex#send", 0xfbd36067ddc16892, 0x9d65e6690ae8be98),
-  ("uhppote/set_interlock.go:uhppote.SetInterlock#request", 0x8ff7514b7430f76d, 0x9bfa62617b0e5aae),
-  ("uhppote/set_interlock.go:uhppote.SetInterlock#send", 0x1e967bb374ed571d, 0xc8ed3984f8b7e93d),
-  ("uhppote/set_listener.go:uhppote.SetListener#request", 0x90be8a364176bfff, 0x3b64456ff4cf6dea),
-  ("uhppote/set_listener.go:uhppote.SetListener#send", 0x4c2c205192195fd7, 0x0d86a78f5cd12308),
-  ("uhppote/set_pc_control.go:uhppote.SetPCControl#request", 0xc88f87506096cc3b, 0xb79041bc1a6f29b5),
-  ("uhppote/set_pc_control.go:uhppote.SetPCControl#send", 0x4f4081af2937fe5b, 0xb0228be9e306251a),
-  ("uhppote/set_time.go:uhppote.SetTime#request", 0x37db9fcd452e61e2, 0xc40bcca73aa78905),
-  ("uhppote/set_time.go:uhppote.SetTime#send", 0xe272b24fc691e907, 0xf9f8d6b65adbf469),
-  ("uhppote/set_time_profile.go:uhppote.SetTimeProfile#request", 0xb93fb9d40ede65f7, 0xb6f34665fdf94df3),
-  ("uhppote/set_time_profile.go:uhppote.SetTimeProfile#send", 0x266dd1f82d3594d7, 0x611d76d57cf35731)
+  ("types/version.go:Version.MarshalUT0311L0x", 0x00c671172da563c1, 0xf30848f55aed87f9)
 ]
 
 def C02 : List (String × Nat × Nat) := [
@@ -273,43 +211,12 @@ def C06 : List (String × Nat × Nat) := [
 ]
 
 def C07 : List (String × Nat × Nat) := [
-  ("uhppote/activate_keypads.go:uhppote.ActivateKeypads#guards", 0x0b6317884e539a9f, 0x33281e02ea411183),
-  ("uhppote/add_task.go:uhppote.AddTask#guards", 0xca0e1939a6233750, 0x7ab29dcfca7f3ac9),
-  ("uhppote/clear_task_list.go:uhppote.ClearTaskList#guards", 0xe525588d69574c4f, 0x1d50b64331b6d5fa),
-  ("uhppote/clear_time_profiles.go:uhppote.ClearTimeProfiles#guards", 0xedc4c504b0cacb3c, 0x5b11b207136b2dbc),
-  ("uhppote/delete_card.go:uhppote.DeleteCard#guards", 0xd29e3a7cfe8bc5fd, 0xde539f249ab31030),
-  ("uhppote/delete_cards.go:uhppote.DeleteCards#guards", 0x6b048644f5295471, 0xa82ddf5684ad1576),
   ("uhppote/errors.go:var ErrIncorrectController", 0x6f3fb28d6ac2a09f, 0x2473a55722a195bd),
   ("uhppote/errors.go:var ErrInvalidCard", 0x5631db55cf4dedce, 0x84fb88eb660413e4),
   ("uhppote/errors.go:var ErrInvalidListenerAddress", 0x1e94f942590c1cc7, 0xa36580755bbbc0d5),
-  ("uhppote/get_card.go:uhppote.GetCardByID#guards", 0x8bce3ab81016f052, 0x217c278b0a537575),
-  ("uhppote/get_card.go:uhppote.GetCardByIndex#guards", 0xdeb610443985a079, 0xdf0ee2373b566cd9),
-  ("uhppote/get_cards.go:uhppote.GetCards#guards", 0xae2ad4835edb172f, 0x8a6ab212c2f341ff),
-  ("uhppote/get_device.go:uhppote.GetDevice#guards", 0x21119b3d38284c26, 0x0af18b527c878021),
-  ("uhppote/get_door_control_state.go:uhppote.GetDoorControlState#guards", 0x8c3be5038c4a3752, 0xa3af0642e395780f),
-  ("uhppote/get_event.go:uhppote.GetEvent#guards", 0x85e9cb8e88711530, 0x6f5d379b967929f4),
-  ("uhppote/get_event_index.go:uhppote.GetEventIndex#guards", 0x85b65ab2475a504b, 0xcb872b6e1bd4d2c7),
-  ("uhppote/get_listener.go:uhppote.GetListener#guards", 0xfeeff16673c00040, 0x6d201e8a3cb4fffd),
-  ("uhppote/get_status.go:uhppote.GetStatus#guards", 0x68f303492fdbb13b, 0xe12e32cf1e2ed6d2),
-  ("uhppote/get_time.go:uhppote.GetTime#guards", 0xa9f9bd6684d9b9d3, 0x1c9a4cc74c3094a0),
-  ("uhppote/get_time_profile.go:uhppote.GetTimeProfile#guards", 0xb8325318f3ef63ff, 0x9c507208f62c9220),
-  ("uhppote/open.go:uhppote.OpenDoor#guards", 0x1176e4b12e7f1e7a, 0x070ad1b3038d841f),
   ("uhppote/put_card.go:isCardNumberValid", 0x047446ded14e1d97, 0x806932eb4232eebd),
   ("uhppote/put_card.go:isWiegand26", 0x9d07b53a701ea076, 0x49157ba53f98192d),
-  ("uhppote/put_card.go:isWiegandAny", 0x5454e8f7181efc7a, 0x2973a0670a3e063a),
-  ("uhppote/put_card.go:uhppote.PutCard#guards", 0x35d7c9a3dd646b6b, 0x576946aa7e05b0f6),
-  ("uhppote/record_special_events.go:uhppote.RecordSpecialEvents#guards", 0x7323536dd17fd500, 0xcd657f45148d2561),
-  ("uhppote/refresh_tasklist.go:uhppote.RefreshTaskList#guards", 0xbd37651d73d41842, 0x0069a0374f701a27),
-  ("uhppote/restore_default_parameters.go:uhppote.RestoreDefaultParameters#guards", 0xfcbc5ade7a0d2028, 0x46d6482db09cce1f),
-  ("uhppote/set_address.go:uhppote.SetAddress#guards", 0x6122d0c03cc6bb9d, 0xd0a4aa9518c99a21),
-  ("uhppote/set_door_control_state.go:uhppote.SetDoorControlState#guards", 0x28df338ce00c9517, 0x84c35fb95aea284f),
-  ("uhppote/set_door_passcodes.go:uhppote.SetDoorPasscodes#guards", 0x9117aa88278b9a48, 0xb5de41dac0d9927a),
-  ("uhppote/set_event_index.go:uhppote.SetEventIndex#guards", 0x498d7115072b87e9, 0x91a1219ccafd4754),
-  ("uhppote/set_interlock.go:uhppote.SetInterlock#guards", 0x07c5d8f1523ea2e3, 0x3b0cb32f362632d1),
-  ("uhppote/set_listener.go:uhppote.SetListener#guards", 0x5462c8a7ba2f0d30, 0x3efd4e7dd52a0e51),
-  ("uhppote/set_pc_control.go:uhppote.SetPCControl#guards", 0x4678276d2495a008, 0x93a382b42af286c5),
-  ("uhppote/set_time.go:uhppote.SetTime#guards", 0x72c81f8881706d79, 0xdc910622053ae596),
-  ("uhppote/set_time_profile.go:uhppote.SetTimeProfile#guards", 0x24ac57e69d299117, 0x9b5ac0e9694b2b01)
+  ("uhppote/put_card.go:isWiegandAny", 0x5454e8f7181efc7a, 0x2973a0670a3e063a)
 ]
 
 def C08 : List (String × Nat × Nat) := [
@@ -490,15 +397,6 @@ def C15 : List (String × Nat × Nat) := [
 ]
 
 def C16 : List (String × Nat × Nat) := [
-  ("types/HHmm.go:HHmm.After", 0x3d99b90a0110e6d8, 0xbd4ac84f945ae23d),
-  ("types/HHmm.go:HHmm.Before", 0xe8cb25a8cfbfe1cc, 0x74b4be6de5abacb5),
-  ("types/HHmm.go:HHmm.Equals", 0x3a1590b82fa5c16a, 0xe5c668603469c561),
-  ("types/HHmm.go:HHmm.after", 0xed72447ce73b95f8, 0x88af1bdf7b164f01),
-  ("types/HHmm.go:HHmm.before", 0x8728836df625e026, 0x0f42654b044db04e),
-  ("types/date.go:Date.After", 0x3ca68a58f10e81e3, 0x016b5ace9191a449),
-  ("types/date.go:Date.Before", 0x8681261c983f69a7, 0xc68ed8591afb072d),
-  ("types/date.go:Date.Equals", 0x5b5fd9b437933a7b, 0x259e3001a6d40f25),
-  ("types/datetime.go:DateTime.Before", 0x4b0b39963b9ddee6, 0xceab24b29b24cbf4),
   ("uhppote/set_time_profile.go:uhppote.SetTimeProfile#guards", 0x24ac57e69d299117, 0x9b5ac0e9694b2b01)
 ]
 
@@ -536,6 +434,6 @@ def C18 : List (String × Nat × Nat) := [
 ]
 
 /-- declarations no property's model depends on (helpers for callers, debug output, constructors used only by tests) -/
-def unpinned : List String := ["encoding/UTO311-L0x/UT0311-L0x.go:Dump", "types/HHmm.go:HHmmFromTime", "types/HHmm.go:NewHHmm", "types/datetime.go:DateTime.Add", "types/datetime.go:DateTimeNow", "uhppote/UT0311.go:ut0311.debugf", "uhppote/iuhppote.go:type IUHPPOTE", "uhppote/uhppote.go:const VERSION", "uhppote/uhppote.go:uhppote.debugf"]
+def unpinned : List String := ["encoding/UTO311-L0x/UT0311-L0x.go:Dump", "types/HHmm.go:HHmm.After", "types/HHmm.go:HHmm.Before", "types/HHmm.go:HHmm.Equals", "types/HHmm.go:HHmm.after", "types/HHmm.go:HHmm.before", "types/HHmm.go:HHmmFromTime", "types/HHmm.go:NewHHmm", "types/date.go:Date.After", "types/date.go:Date.Before", "types/date.go:Date.Equals", "types/datetime.go:DateTime.Add", "types/datetime.go:DateTime.Before", "types/datetime.go:DateTimeNow", "uhppote/UT0311.go:ut0311.debugf", "uhppote/activate_keypads.go:uhppote.ActivateKeypads#guards", "uhppote/activate_keypads.go:uhppote.ActivateKeypads#request", "uhppote/add_task.go:uhppote.AddTask#guards", "uhppote/add_task.go:uhppote.AddTask#request", "uhppote/clear_task_list.go:uhppote.ClearTaskList#guards", "uhppote/clear_task_list.go:uhppote.ClearTaskList#request", "uhppote/clear_time_profiles.go:uhppote.ClearTimeProfiles#guards", "uhppote/clear_time_profiles.go:uhppote.ClearTimeProfiles#request", "uhppote/delete_card.go:uhppote.DeleteCard#guards", "uhppote/delete_card.go:uhppote.DeleteCard#request", "uhppote/delete_cards.go:uhppote.DeleteCards#guards", "uhppote/delete_cards.go:uhppote.DeleteCards#request", "uhppote/get_card.go:uhppote.GetCardByID#guards", "uhppote/get_card.go:uhppote.GetCardByID#request", "uhppote/get_card.go:uhppote.GetCardByIndex#guards", "uhppote/get_card.go:uhppote.GetCardByIndex#request", "uhppote/get_cards.go:uhppote.GetCards#guards", "uhppote/get_cards.go:uhppote.GetCards#request", "uhppote/get_device.go:uhppote.GetDevice#guards", "uhppote/get_device.go:uhppote.GetDevice#request", "uhppote/get_door_control_state.go:uhppote.GetDoorControlState#guards", "uhppote/get_door_control_state.go:uhppote.GetDoorControlState#request", "uhppote/get_event.go:uhppote.GetEvent#guards", "uhppote/get_event.go:uhppote.GetEvent#request", "uhppote/get_event_index.go:uhppote.GetEventIndex#guards", "uhppote/get_event_index.go:uhppote.GetEventIndex#request", "uhppote/get_listener.go:uhppote.GetListener#guards", "uhppote/get_listener.go:uhppote.GetListener#request", "uhppote/get_status.go:uhppote.GetStatus#guards", "uhppote/get_status.go:uhppote.GetStatus#request", "uhppote/get_time.go:uhppote.GetTime#guards", "uhppote/get_time.go:uhppote.GetTime#request", "uhppote/get_time_profile.go:uhppote.GetTimeProfile#guards", "uhppote/get_time_profile.go:uhppote.GetTimeProfile#request", "uhppote/iuhppote.go:type IUHPPOTE", "uhppote/open.go:uhppote.OpenDoor#guards", "uhppote/open.go:uhppote.OpenDoor#request", "uhppote/put_card.go:uhppote.PutCard#guards", "uhppote/put_card.go:uhppote.PutCard#request", "uhppote/record_special_events.go:uhppote.RecordSpecialEvents#guards", "uhppote/record_special_events.go:uhppote.RecordSpecialEvents#request", "uhppote/refresh_tasklist.go:uhppote.RefreshTaskList#guards", "uhppote/refresh_tasklist.go:uhppote.RefreshTaskList#request", "uhppote/restore_default_parameters.go:uhppote.RestoreDefaultParameters#guards", "uhppote/restore_default_parameters.go:uhppote.RestoreDefaultParameters#request", "uhppote/set_address.go:uhppote.SetAddress#guards", "uhppote/set_address.go:uhppote.SetAddress#request", "uhppote/set_door_control_state.go:uhppote.SetDoorControlState#guards", "uhppote/set_door_control_state.go:uhppote.SetDoorControlState#request", "uhppote/set_door_passcodes.go:uhppote.SetDoorPasscodes#guards", "uhppote/set_door_passcodes.go:uhppote.SetDoorPasscodes#request", "uhppote/set_event_index.go:uhppote.SetEventIndex#guards", "uhppote/set_event_index.go:uhppote.SetEventIndex#request", "uhppote/set_interlock.go:uhppote.SetInterlock#guards", "uhppote/set_interlock.go:uhppote.SetInterlock#request", "uhppote/set_listener.go:uhppote.SetListener#guards", "uhppote/set_listener.go:uhppote.SetListener#request", "uhppote/set_pc_control.go:uhppote.SetPCControl#guards", "uhppote/set_pc_control.go:uhppote.SetPCControl#request", "uhppote/set_time.go:uhppote.SetTime#guards", "uhppote/set_time.go:uhppote.SetTime#request", "uhppote/set_time_profile.go:uhppote.SetTimeProfile#request", "uhppote/uhppote.go:const VERSION", "uhppote/uhppote.go:uhppote.debugf"]
 
 end Uhppote.Model.Pins
